@@ -856,11 +856,13 @@ fn main() {
       // C04 claims the disconnect clauses of the broadcast channel, C07 everything
       let c04_rule = matches!(f.rule.as_str(), "premature-disconnected" | "disconnected-before-drained") || f.rule.starts_with("panic-in-");
       // C06 claims only the progress clause (a pending / blocked operation that had become possible)
-      if (prop == "C04" && !c04_rule) || ((prop == "C06" || prop == "C05") && f.rule != "stuck") {
+      // C02 claims the order clauses (each receiver's run is the sent sequence: no gap, duplicate, reorder, phantom)
+      let c02_rule = matches!(f.rule.as_str(), "duplicate-or-reordered" | "gap" | "phantom-value") || f.rule.starts_with("panic-in-");
+      if (prop == "C04" && !c04_rule) || ((prop == "C06" || prop == "C05") && f.rule != "stuck") || (prop == "C02" && !c02_rule) {
         res.count(&format!("other_property_observations/C07|spmc|{}|broadcast", f.rule), 1);
         continue;
       }
-      let sig = format!("{}/spmc/{}/broadcast", if ["C04", "C05", "C06"].contains(&prop.as_str()) { prop.as_str() } else { "C07" }, f.rule);
+      let sig = format!("{}/spmc/{}/broadcast", if ["C02", "C04", "C05", "C06"].contains(&prop.as_str()) { prop.as_str() } else { "C07" }, f.rule);
       let witness = json!({"scenario": scn.describe(), "detail": f.detail, "complete": complete,
         "receivers": metas.iter().map(|m| json!({"handle": m.handle, "start": m.start, "thread": m.thread})).collect::<Vec<_>>(),
         "history": history_json(&evs, 600)});
